@@ -33,9 +33,8 @@
      dimensions, any dtype: a type parameter A); the per-event data of an Events object is the
      list of the per-event records (all keys, any trailing dimensions).
    Not modelled (out of the property's observation points or another property's business):
-     0-d `self`, empty time arguments (StopIteration in get_time_unit), the sampling interval of
-     the series returned by `during` (it goes interval -> rate -> interval through floats: C02),
-     Events' labels/indices, non-positive sampling intervals of np.arange. *)
+     0-d `self`, empty time arguments (StopIteration in get_time_unit), the float sampling_rate
+     attribute (C02), Events' labels/indices, non-positive sampling intervals of np.arange. *)
 From Coq Require Import ZArith List Bool PrimFloat.
 From NT Require Import F2Z Lists TimeArray.
 Import ListNotations.
@@ -373,14 +372,16 @@ Definition series_at {A} (s : series A) (t : data) : xres (sel A) :=
 Definition series_getint {A} (s : series A) (k : Z) : xres A := getz (s_data s) k.
 
 (* what `during` builds: the selected columns (one row per epoch for an epoch array), and the
-   t0 / unit handed to the TimeSeries constructor *)
+   t0 / sampling interval / unit handed to the TimeSeries constructor (the interval itself since
+   /repo 237b5b4; before that the float rate, which lost the last digits of intervals > 2^53 ps) *)
 Inductive dsel (A : Type) := DOne (l : list A) | DRows (rows : list (list A)).
 Arguments DOne {A} l.
 Arguments DRows {A} rows.
-Record during_out (A : Type) := mk_dout { d_sel : dsel A; d_t0 : Z; d_unit : unit }.
+Record during_out (A : Type) := mk_dout { d_sel : dsel A; d_t0 : Z; d_dt : Z; d_unit : unit }.
 Arguments mk_dout {A}.
 Arguments d_sel {A}.
 Arguments d_t0 {A}.
+Arguments d_dt {A}.
 Arguments d_unit {A}.
 
 Definition all_same_len {A} (rows : list (list A)) : bool :=
@@ -398,7 +399,7 @@ Definition series_during {A} (s : series A) (e : epochs) : xres (during_out A) :
   let t0' := head_ps (e_offset e) in
   if e_scalar e then
     do sl <- uslice_during ax e;
-    XOk (mk_dout (DOne (pyslice (fst sl) (snd sl) (s_data s))) t0' (s_unit s))
+    XOk (mk_dout (DOne (pyslice (fst sl) (snd sl) (s_data s))) t0' (s_dt s) (s_unit s))
   else
     do dur <- of_res (e_durations e);
     match payload dur with
@@ -409,7 +410,7 @@ Definition series_during {A} (s : series A) (e : epochs) : xres (during_out A) :
                                       XOk (pyslice (fst sl) (snd sl) (s_data s)))
                            (epoch_list e));
       if negb (all_same_len rows) then XErr XValue else
-      XOk (mk_dout (DRows rows) t0' (s_unit s))
+      XOk (mk_dout (DRows rows) t0' (s_dt s) (s_unit s))
     end.
 
 (* ---------------------------------------------------------------- Events *)
